@@ -1,4 +1,5 @@
 import Arimaa.Lemmas.RsAgreePure
+import Arimaa.Lemmas.RsAgreeSquareCore
 import Arimaa.Impl.Panics
 
 /-!
@@ -6,6 +7,10 @@ Agreement of the regenerated model with the hand model, part 2: functions that c
 boards, the per-turn record, the Zobrist arithmetic.  Shape of every statement:
 
     Gen.Rs.f args = Res.guard (fPanics args) (f args)
+
+(`Lemmas/RsAgreeSquareCore.lean`, imported here, proves the contracts of the calls into square.rs / bit_manip.rs /
+`map_bit_board_to_squares` that the engine translation renders as `Rt.asBitBoard`, `sqOfBit`, `Rt.firstSetBit`,
+`squaresOf`.)
 
 i.e. the regenerated function panics exactly where the hand-written guard of `Impl/Panics.lean` says,
 and otherwise returns what the hand-written total function returns.  Both the total model (used by
